@@ -62,6 +62,43 @@ class Results:
             self.functions.add(body.path)
 
 
+class Filtered:
+    """view of a Results object that keeps only the records whose key matches `rx` (used when a property
+    re-uses a rule of another property but relies on only some of its obligations)"""
+
+    def __init__(self, res, rx):
+        self._res = res
+        self._rx = re.compile(rx)
+        self.prop = res.prop
+
+    def __getattr__(self, name):
+        return getattr(self._res, name)
+
+    def __setattr__(self, name, value):
+        if name in ('_res', '_rx', 'prop'):
+            object.__setattr__(self, name, value)
+        else:
+            setattr(self._res, name, value)
+
+    def _keep(self, what, key):
+        return bool(self._rx.search(str(key if key is not None else what)))
+
+    def ok(self, rule, anchor, what, site=None, detail=None, key=None):
+        if self._keep(what, key):
+            return self._res.ok(rule, anchor, what, site, detail, key)
+
+    def bad(self, rule, anchor, what, site=None, detail=None, key=None):
+        if self._keep(what, key):
+            return self._res.bad(rule, anchor, what, site, detail, key)
+
+    def check(self, cond, rule, anchor, what, site=None, detail=None, key=None):
+        if self._keep(what, key):
+            return self._res.check(cond, rule, anchor, what, site, detail, key)
+
+    def touch(self, body):
+        self._res.touch(body)
+
+
 class Lost(Exception):
     """an anchor the rule talks about cannot be found (fail closed: reported as a violation)"""
 
